@@ -202,6 +202,12 @@ def apply(ctx, W):
     if len(fb) != 1:
         raise rules.WeaveError("build: closure add_functions has no single FunctionBody::field call")
     rules.redirect_call(fw, fb[0], "v_function_body_field")
+    anys = [c for c in fw.method_calls(b, "any") if cl["body_span"][0] <= c["span"][0] < cl["body_span"][1]]
+    if len(anys) != 1:
+        raise rules.WeaveError("build: closure add_functions has no single `.any(..)` receiver test")
+    rules.iter_any(fw, b, anys[0])
+    closure_annot(ctx, fw, u4a, [c for c in fw.closures(b) if c["span"] == anys[0]["args"][0]["span"]][0], params=["a: &crate::semantic::types::Argument"], ret="rb: bool",
+                  ensures=["rb == arg_is_self(*a)"], tags=("C07",))
 
     # S4b: the functions of the type's impl block (verified)
     u4b = rules.outline(ctx, fw, b, stmt_with_loop(l_impl), stmt_with_loop(l_impl), "build__impl_functions",
